@@ -8,6 +8,8 @@ ASSUMPTIONS = [
     "tasks carry skipif(False), try_first / try_last and user markers at random: marks that must be irrelevant to containment "
     "(skipif(False) is no flag in the model, try_first / try_last are the model's priorities)",
     "observed schedule replayed in the Lean engine; theorems hold for every legal schedule",
+    "stream 'memlink' (product -> dependency links through an in-memory PythonNode whose producer fails): no in-memory nodes in M6, "
+    "implementation-only oracle (contain, limit, exit) without model replay",
     "stream 'generator' (task generators with products / dependants / after-links, failing, under failure limits): the static engine "
     "model M6 has no generators, so this stream is checked by the implementation-only oracle (contain, limit, exit) without model replay",
 ]
@@ -37,6 +39,9 @@ def oracle(hist, records):
             for d in engine.closure(edges, f, forward=True):
                 if d in ex:
                     bad.append(("contain", f"task {d} depends on failed task {f} but its body ran (log {obs['log']})", None))
+                if out.get(d) in ("SUCCESS", "PERSISTENCE"):
+                    bad.append(("contain", f"task {d} depends on failed task {f} but is reported {out[d]} (its states are recorded from the "
+                                           f"failed run's output); reports {obs['reports']}", None))
         mf = cfg.get("maxfail")
         stopped = mf is not None and len(failed) >= mf
         if mf is not None:
@@ -70,7 +75,7 @@ def oracle(hist, records):
 def histories(ctx):
     rng = ctx.rng
     hs = []
-    for i in range(ctx.scale(110, 1200)):
+    for i in range(ctx.scale(100, 1200)):
         # markers that must be irrelevant to containment: skipif(False), try_first / try_last, user markers
         spec = engine.gen_spec(rng, nt=(2, 7), after_p=0.25, after_needs_prods=True, behs=("ok", "ok", "ok", "early", "late", "omit"),
                                marks=(("skipif_false", 0.3), ("try_first", 0.12), ("try_last", 0.12)), user_markers=True)
@@ -91,6 +96,61 @@ def histories(ctx):
                 steps.append(["setbeh", f["id"], f["beh"]])
                 steps.append(["build", {}])
         hs.append({"tag": "rand", "spec": spec, "steps": steps})
+    # persist-marked dependants of a task that starts to fail after a good build and an edited input:
+    # build -> edit input -> failing build -> build
+    for i in range(ctx.scale(14, 200)):
+        spec = engine.gen_spec(rng, nt=(3, 7), after_p=0.2, after_needs_prods=True, behs=("ok",), prodless_p=0.05, dens=0.8,
+                               marks=(("skipif_false", 0.15),), user_markers=True)
+        edges = engine.spec_task_edges(spec)
+        cands = [t for t in spec["tasks"] if engine.closure(edges, t["id"], forward=True) and t["prods"]]
+        if not cands:
+            continue
+        f = rng.choice(cands)
+        desc = sorted(engine.closure(edges, f["id"], forward=True))
+        byid = {t["id"]: t for t in spec["tasks"]}
+        for d in rng.sample(desc, rng.randint(1, min(2, len(desc)))):
+            if byid[d]["prods"]:
+                byid[d]["marks"] = sorted(set(byid[d]["marks"]) | {"persist"})
+        ups = engine.closure(edges, f["id"], forward=False) | {f["id"]}
+        ins = sorted({d for u in ups for d in byid[u]["deps"]} & {int(k) for k in spec["inputs"]}) or [int(k) for k in spec["inputs"]]
+        beh = rng.choice(["late", "late", "late", "early", "omit:0"])
+        steps = [["build", {}], ["write", rng.choice(ins), rng.randint(100, 999)], ["setbeh", f["id"], beh],
+                 ["build", {"maxfail": rng.choice([None, None, 2])}], ["build", {}]]
+        hs.append({"tag": "persist-dependant", "spec": spec, "steps": steps})
+    return hs
+
+
+def memlink_histories(ctx):
+    """Labelled stream "memlink": some product -> dependency links go through an in-memory PythonNode (the producer's `mem_out`
+    product is the consumer's `mem_in` dependency; in the DAG: producer -> node -> consumer), the producer fails. The static engine
+    model has no in-memory nodes: implementation-only oracle (contain / limit / exit)."""
+    rng = ctx.rng
+    hs = []
+    for i in range(ctx.scale(20, 300)):
+        spec = engine.gen_spec(rng, nt=(3, 7), after_p=0.15, after_needs_prods=True, prodless_p=0.05, dens=0.9,
+                               behs=("ok", "ok", "ok", "early", "late"), styles=("default", "annotated", "kwargs"),
+                               marks=(("skipif_false", 0.15),), user_markers=True)
+        prod_of = {p: t["id"] for t in spec["tasks"] for p in t["prods"]}
+        byid = {x["id"]: x for x in spec["tasks"]}
+        linked = []
+        for t in spec["tasks"]:
+            for d in list(t["deps"]):
+                u = prod_of.get(d)
+                if u is not None and u != t["id"] and rng.random() < 0.6:
+                    byid[u]["mem_out"] = True
+                    if u not in t.setdefault("mem_in", []):
+                        t["mem_in"].append(u)
+                    if rng.random() < 0.7:
+                        t["deps"].remove(d)        # the in-memory node is the only link
+                    linked.append(u)
+        if not linked:
+            continue
+        if rng.random() < 0.8:                      # the producer of a link fails
+            u = byid[rng.choice(linked)]
+            if u["beh"] == "ok":
+                u["beh"] = rng.choice(["early", "late"])
+        steps = [["build", {"maxfail": rng.choice([None, None, 1, 2])}], ["build", {}]]
+        hs.append({"tag": "memlink", "spec": spec, "steps": steps})
     return hs
 
 
@@ -100,7 +160,7 @@ def generator_histories(ctx):
     implementation-only oracle (contain / limit / exit)."""
     rng = ctx.rng
     hs = []
-    for i in range(ctx.scale(28, 400)):
+    for i in range(ctx.scale(24, 400)):
         spec = engine.gen_spec(rng, nt=(3, 7), after_p=0.3, after_needs_prods=True, prodless_p=0.05, dens=0.8,
                                behs=("ok", "ok", "ok", "early", "late"), styles=("default", "annotated", "kwargs"),
                                marks=(("skipif_false", 0.25), ("try_first", 0.1), ("try_last", 0.1)), user_markers=True)
@@ -150,11 +210,15 @@ def run(ctx):
     engine.run_campaign(ctx, generator_histories(ctx), oracle, kinds={"contain", "limit", "exit"}, nontrivial=nontrivial_gen,
                         sel_eval=engine.sel_eval, compare_model=False)
     ctx.extra["generator_stream_nontrivial"] = len(ctx.nontrivial) - before
+    before = len(ctx.nontrivial)
+    engine.run_campaign(ctx, memlink_histories(ctx), oracle, kinds={"contain", "limit", "exit"}, nontrivial=nontrivial,
+                        sel_eval=engine.sel_eval, compare_model=False)
+    ctx.extra["memlink_stream_nontrivial"] = len(ctx.nontrivial) - before
 
 
 def replay(ctx, obj):
     h = obj["input"]["history"]
-    if h.get("tag") == "generator":
+    if h.get("tag") in ("generator", "memlink"):
         engine.run_campaign(ctx, [h] * 4, oracle, kinds={"contain", "limit", "exit"}, sel_eval=engine.sel_eval, compare_model=False)
     else:
         engine.run_campaign(ctx, [h] * 4, oracle, sel_eval=engine.sel_eval)
